@@ -23,6 +23,7 @@ type propCfg struct {
 	QuickSeconds     int // wall-clock cap of the exploration phase
 	ThoroughSeconds  int
 	TimeoutS         int // per-run watchdog
+	OrderSample      int // quick tier: this many runs are replayed alone in fresh processes and compared (x10 in the thorough tier)
 	Rule             string
 	Assumptions      []string
 	Real             []string
